@@ -222,3 +222,12 @@ pub mod format {
     //@ sub previous_blocks_sig_versions\.max\(\) => crate::verif_std::verif_iter_max(previous_blocks_sig_versions)
     //@end
 }
+//@canary chain-prev :: format::SerializedBiscuit::verify_inner :: previous_signature = &block.signature; ==>>
+//@canary proof-skip :: format::SerializedBiscuit::verify_inner :: if current_pub != &private.public() { ==>> if false {
+//@canary authority-ext :: format::SerializedBiscuit::deserialize :: if data.authority.external_signature.is_some() { ==>> if false {
+//@canary tp-version-gate :: format::SerializedBiscuit::deserialize :: && block.version != Some(THIRD_PARTY_SIGNATURE_VERSION) ==>> && false
+//@canary append-prev :: format::SerializedBiscuit::append :: &self.last_block().signature, ==>> &self.authority.signature,
+//@canary seal-drops-blocks :: format::SerializedBiscuit::seal :: blocks: self.blocks.clone(), ==>> blocks: Vec::new(),
+//@canary-requires format::SerializedBiscuit::new_inner
+//@canary-requires format::SerializedBiscuit::append
+//@canary-requires format::SerializedBiscuit::append_serialized
